@@ -1,5 +1,6 @@
 SPECIFICATION MCSpec
 CONSTANTS
+  WideBase <- SmallBase
   Fixed1 = 16
   Ds = {1, 4}
   W = 3
@@ -13,4 +14,4 @@ CONSTANTS
   Exts = {0, 3}
   QStale = FALSE
   QExact0 = FALSE
-INVARIANTS HSplit VSplit Shift Geometry
+INVARIANTS HSplit VSplit Shift Geometry WideRows
